@@ -264,6 +264,8 @@ def parse_value(lx, ty):
             base = parse_type(lx); lx.expect(',')
             extra = base
         while True:
+            if op == 'getelementptr':
+                lx.accept('inrange')   # vtable address points: the marker carries no value semantics
             at = parse_type(lx)
             av = parse_value(lx, at)
             args.append((at, av))
@@ -377,7 +379,8 @@ def parse_module(text):
             elif s.startswith('@'):
                 parse_global(m, s)
             elif s.startswith('declare '):
-                parse_declare(m, s)
+                if not ('@llvm.' in s and 'metadata' in s):  # metadata-only intrinsics (noalias.scope.decl, dbg.*) are dropped at their call sites
+                    parse_declare(m, s)
             elif s.startswith('define '):
                 cur = parse_define(m, s)
                 blk = None
@@ -709,6 +712,13 @@ class Emitter:
                 n = 'vptr'
                 s.tynames[key] = n
                 return n
+            if isinstance(to, NamedTy) and repr(to) not in s.tynames and getattr(s, '_struct_depth', 0) > 0:
+                # pointer to a not yet emitted struct inside a struct body (recursive types such as parse_tree::node):
+                # forward-declare only; the definition follows once the enclosing struct is complete
+                sn = 'S_' + cname(to.name)
+                s.tynames[repr(to)] = sn
+                s.tydefs.append(f"typedef struct {sn} {sn};")
+                s._struct_deferred.append((sn, s.m.named_types[to.name]))
             inner = s.cty(to)
             n = 'P' + inner
             if n not in s.tynames.values():
@@ -795,12 +805,30 @@ class Emitter:
         s.struct_done.add(n)
         # make sure field types are defined first (by-value fields need complete types)
         fields = []
+        if not hasattr(s, '_struct_deferred'):
+            s._struct_deferred = []
+        s._struct_depth = getattr(s, '_struct_depth', 0) + 1
         for i, ft in enumerate(body.fields):
+            bt = ft
+            while isinstance(bt, ArrTy):
+                bt = bt.el
+            if isinstance(bt, NamedTy):
+                # a by-value field needs the complete type even if a pointer to it was only forward-declared so far
+                for k, (dn, db) in enumerate(s._struct_deferred):
+                    if dn == 'S_' + cname(bt.name):
+                        del s._struct_deferred[k]
+                        s.emit_struct(dn, db)
+                        break
             fields.append(f"{s.cty(ft)} f{i};")
+        s._struct_depth -= 1
         if not fields:
             fields = ["char _empty;"]
         attr = ' __attribute__((packed))' if body.packed else ''
         s.tydefs.append(f"struct{attr} {n} {{ {' '.join(fields)} }};")
+        if s._struct_depth == 0:
+            while s._struct_deferred:
+                dn, db = s._struct_deferred.pop(0)
+                s.emit_struct(dn, db)
 
     # ---- constant / value expressions
     def val(s, v, ty, fn=None):
@@ -1202,8 +1230,15 @@ class Emitter:
             lines.append(f"{res}__builtin_bswap{bits}({args[0]});"); throws = False
         elif name.startswith('llvm.expect'):
             lines.append(f"{res}{args[0]};"); throws = False
-        elif name == 'llvm.trap':
+        elif name == 'llvm.trap' or name == 'llvm.ubsantrap':
             lines.append("__VERIFIER_trap();"); throws = False
+        elif re.match(r'llvm\.[su](add|sub|mul)\.with\.overflow\.i(8|16|32|64)$', name):
+            # -ftrapv / -fsanitize-trap: { iN result, i1 overflowed }
+            mo = re.match(r'llvm\.([su])(add|sub|mul)\.with\.overflow\.i(\d+)$', name)
+            ot = f"{mo.group(1)}{mo.group(3)}"
+            rv = f"v_{cname(ins.res)}"
+            lines.append(f"{{ {ot} __t; {rv}.f1 = (u1)__builtin_{mo.group(2)}_overflow(({ot}){args[0]}, ({ot}){args[1]}, &__t); {rv}.f0 = (u{mo.group(3)})__t; }}")
+            throws = False
         elif name.startswith('llvm.'):
             raise NotImplementedError("intrinsic " + name)
         elif name == '__cxa_throw':
